@@ -170,7 +170,9 @@ where
     let nontrivial = executed_unchecked && (spec.cfg.subsampling_x > 0 || spec.cfg.subsampling_y > 0 || g.writer_ss != (0, 0) || spec.planes.iter().any(|p| p.xpad > 0 || p.from_slice))
         || spec.chroma_too_small();
     if nontrivial {
-        st.nontrivial(&g.to_json().to_string());
+        if !cfg!(miri) {
+            st.nontrivial(&g.to_json().to_string());
+        }
     }
     Ok(())
 }
@@ -206,7 +208,9 @@ fn run_float(f: &FloatCase, st: &mut Stats) -> Result<(), Violation> {
     let nonfinite = px.iter().any(|p| p.iter().any(|x| !x.is_finite()));
     if nonfinite {
         st.class("float_case_with_non_finite_value", 1);
-        st.nontrivial(&f.to_json("C07").to_string());
+        if !cfg!(miri) {
+            st.nontrivial(&f.to_json("C07").to_string());
+        }
     }
     Ok(())
 }
@@ -288,6 +292,36 @@ pub fn run(ctx: &Ctx, st: &mut Stats) -> Vec<Violation> {
     }
     v.extend(curve_sweep(ctx, st));
     v
+}
+
+/// cases for the Miri engine: drawn from the same strategy, restricted to small frames, plus every
+/// special value through every curve direction
+pub fn corpus(seed: u64, n: usize) -> Vec<Value> {
+    let strat = strategy();
+    let mut out: Vec<Value> = Vec::new();
+    let mut round = 0u64;
+    while out.len() < n && round < 64 {
+        for c in sample_strategy(&strat, mix64(seed ^ round), n) {
+            let small = match &c {
+                Case::Geo(g) => g.spec.planes.iter().all(|p| p.w <= 12 && p.h <= 12 && p.xpad <= 8 && p.ypad <= 8),
+                Case::Float(f) => f.w * f.h <= 16,
+            };
+            if small && out.len() < n {
+                out.push(case_json(&c));
+            }
+        }
+        round += 1;
+    }
+    let specials: Vec<Value> = SPECIAL_F32.iter().map(|b| f2j(f32::from_bits(*b))).collect();
+    for t in SUP_TC {
+        if crate::oracle::is_1886_alias(t) {
+            continue;
+        }
+        for d in ["to_linear", "to_gamma"] {
+            out.push(json!({"prop":"C07","part":"curve","transfer":tc_name(t),"dir":d,"values":specials}));
+        }
+    }
+    out
 }
 
 pub fn replay(v: &Value) -> Result<(), String> {
